@@ -83,8 +83,10 @@ def check_case(case):
         for k, (xi, yi) in enumerate(zip(x, y)):
             want = a * float(xi) + t
             invertible = (want - t) / a == float(xi)
-            if 0 < abs(float(xi)) < 1e-250 or 0 < abs(want) < 1e-250:
-                invertible = False  # gradual underflow: power-of-two scaling is no longer exact there
+            if abs(float(xi)) < 1e-250 or abs(want) < 1e-250:
+                # gradual underflow (also underflow to exactly 0 in one of the two runs): a power-of-two
+                # scaling is no longer exact there; such points are compared with the tolerance
+                invertible = False
             if exact and invertible:
                 n_exact += 1
                 ok = float(yi) == want
